@@ -99,18 +99,16 @@ func cloneWorld(e *env, b *baseImage, pcfg prunerCfg, cutoff uint64, name string
 	lines := append([]string{w.cfgLine()}, b.lines...)
 	outs, err := w.drv.AskAll(lines)
 	if err != nil || len(outs) != len(lines) {
-		e.res.Note("driver: %v", err)
-		w.broken = true
+		w.harnessFailed("model driver: %v (%d of %d answers)", err, len(outs), len(lines))
 		return w
 	}
 	w.lines = lines
 	w.openNode(true)
+	w.clock(w.procCutoff)
 	if o := w.ask("crash 1"); o != "ok" {
 		w.mismatch("restart", "clone", o, "ok")
 	}
-	if cutoff > 0 {
-		w.ask(fmt.Sprintf("sample %d", w.sampleNow()))
-	}
+	w.sampleTie("clone")
 	return w
 }
 
@@ -195,7 +193,7 @@ func bloomBase(newState bool) (b1, b2 *baseImage, err error) {
 func bloomWindow(e *env, name string, newState bool) {
 	b1, b2, err := bloomBase(newState)
 	if err != nil {
-		e.res.Note("%s: %v", name, err)
+		e.res.Fatalf("%s: base image: %v", name, err)
 		return
 	}
 	type cfg struct {
@@ -286,7 +284,7 @@ func arithJobs(f lib.Flags) []job {
 func arith(e *env, name string, newState bool, retained uint64) {
 	base, err := getBase(fmt.Sprintf("plain/%v", newState), 11, newState, true, 18, 14)
 	if err != nil {
-		e.res.Note("%s: %v", name, err)
+		e.res.Fatalf("%s: base image: %v", name, err)
 		return
 	}
 	head := uint64(base.height)
@@ -364,7 +362,7 @@ func batchJobs(f lib.Flags) []job {
 func batches(e *env, name string, seed uint64, newState bool, batch int, mode string) {
 	base, err := getBase(fmt.Sprintf("rand/%d/%v", seed, newState), 100+seed, newState, false, 22, 17)
 	if err != nil {
-		e.res.Note("%s: %v", name, err)
+		e.res.Fatalf("%s: base image: %v", name, err)
 		return
 	}
 	const retained, l1a = 2, 13 // first prune: keep 11 (header carve-out boundary: headers below 1 go)
@@ -376,7 +374,7 @@ func batches(e *env, name string, seed uint64, newState bool, batch int, mode st
 	w0.observe()
 	w0.close()
 	if r0.Writes == 0 {
-		e.res.Note("%s: baseline prune wrote nothing", name)
+		e.res.Fatalf("%s: the baseline prune wrote no batch: the whole interruption family would be skipped", name)
 		return
 	}
 	run := func(j int) {
@@ -450,7 +448,7 @@ func leadJobs(f lib.Flags) []job {
 func leadSmall(e *env, name string, newState bool) {
 	base, err := getBase(fmt.Sprintf("plain9/%v", newState), 13, newState, true, 10, 9)
 	if err != nil {
-		e.res.Note("%s: %v", name, err)
+		e.res.Fatalf("%s: base image: %v", name, err)
 		return
 	}
 	for _, mode := range []string{"cancel", "crash"} {
@@ -475,7 +473,7 @@ func leadSmall(e *env, name string, newState bool) {
 func leadL10(e *env, name string, newState bool) {
 	base, err := getBase(fmt.Sprintf("plain30/%v", newState), 12, newState, true, 31, 30)
 	if err != nil {
-		e.res.Note("%s: %v", name, err)
+		e.res.Fatalf("%s: base image: %v", name, err)
 		return
 	}
 	w := cloneWorld(e, base, prunerCfg{Retained: 0, L2PerPrune: 1, BatchBytes: 1}, 0, name, map[string]any{"fail_at_batch": 3})
@@ -509,7 +507,7 @@ func minAgeJobs(f lib.Flags) []job {
 func minAge(e *env, name string, newState bool, retained uint64) {
 	base, err := getBase(fmt.Sprintf("plain/%v", newState), 11, newState, true, 18, 14)
 	if err != nil {
-		e.res.Note("%s: %v", name, err)
+		e.res.Fatalf("%s: base image: %v", name, err)
 		return
 	}
 	head := uint64(base.height)
@@ -567,7 +565,7 @@ func randomHistory(e *env, name string, seed, idx uint64, newState bool) {
 	r := lib.NewRNG(seed).Fork(idx)
 	base, err := getBase(fmt.Sprintf("randhist/%d/%d/%v", seed, idx%4, newState), 500+seed*7+idx%4, newState, false, 40, 3)
 	if err != nil {
-		e.res.Note("%s: %v", name, err)
+		e.res.Fatalf("%s: base image: %v", name, err)
 		return
 	}
 	retained := lib.Pick(r, []uint64{0, 0, 1, 2, 3, 5, 8, 50})
